@@ -48,26 +48,35 @@ def declined(cm, src):
 
 def plan(tier, seed):
     jobs = [j for j in grid.plan(tier, seed) if corpus.is_semgrep_detected(j["cid"])]
-    # non-ASCII text before the site on the same line: a unicode string statement joined with ';' in front of a simple one-line site
+    # non-ASCII text on the lines of the flagged construct (Semgrep counts columns in bytes, libcst in characters):
+    #   prefix        a unicode string statement joined with ';' in front of the statement, single-line call
+    #   hanging       the call broken after its first argument (ASCII; the base of the next two)
+    #   hanging+prefix / hanging+last-arg   non-ASCII on the FIRST line / before the closing parenthesis on the LAST line of a multi-line call
+    #   last-arg      non-ASCII keyword argument appended to a single-line call
     for j in jobs:
         j["monitors"] = {"snap": False, "sg_locs": True}; j["base_of"] = {}
-        extra = {}
+        extra = {}; n_src = 0
         for name, blob in list(j["files"].items()):
+            lab = tuple(j["labels"].get(name, ()))
+            if len(lab) == 3 and lab[2] not in ("lf", "exploded", "trailing-comma"): continue
             try: src = unb(blob).decode("utf-8")
             except UnicodeDecodeError: continue
-            if src.startswith("﻿"): continue
-            lines = src.splitlines(keepends=True)
-            k = len(lines) - 1
-            if k < 0: continue
-            l = lines[k]
-            if l.strip() and not l.startswith((" ", "\t", "#", "import ", "from ", "@", "def ", "class ", "with ", "if ", "for ", "try", "else", "elif")) and "(" in l and not l.rstrip().endswith((",", "(", "\\", ":")):
-                lines[k] = "vf_u = 'é✓'; " + l
-                new = "".join(lines)
-                try: compile(new, "<s>", "exec")
-                except SyntaxError: continue
-                h = hashlib.sha1(new.encode()).hexdigest()[:12]
-                extra[f"u_{h}.py"] = b64(new.encode()); j["labels"][f"u_{h}.py"] = tuple(j["labels"][name]) + ("nonascii-same-line",); j["base_of"][f"u_{h}.py"] = name
-        if tier == "quick": extra = dict(list(extra.items())[:6])
+            if not src.isascii(): continue
+            n_src += 1
+            if tier == "quick" and n_src > 8: break
+            def add(kind, text, base):
+                if text is None or text == src: return None
+                h = hashlib.sha1(text.encode()).hexdigest()[:12]; nm = f"{kind[0]}_{h}.py"
+                extra[nm] = b64(text.encode()); j["labels"][nm] = lab + (kind,)
+                if base: j["base_of"][nm] = base
+                return nm
+            add("u:nonascii-prefix", gen.nonascii_prefix(src), name)
+            add("u:nonascii-last-arg", gen.nonascii_last_argument(src), name)
+            hang = gen.hanging_calls(src)
+            hname = add("h:hanging", hang, None)
+            if hname:
+                add("u:hanging+nonascii-prefix", gen.nonascii_prefix(hang), hname)
+                add("u:hanging+nonascii-last-arg", gen.nonascii_last_argument(hang), hname)
         j["files"].update(extra)
     return jobs
 
@@ -121,7 +130,7 @@ def judge(job, res):
         d = declined(cm, src)
         if d: st["declined:" + d] += 1; continue
         base = job.get("base_of", {}).get(name)
-        if "nonascii-same-line" in lab and base in rewritten: key = "nonascii-column-mismatch"   # the same program without the non-ASCII prefix was rewritten in this very run
+        if any("nonascii" in str(x) for x in lab) and base in rewritten: key = "nonascii-column-mismatch"   # the same program in the same layout without the non-ASCII text was rewritten in this very run
         else: key = f"{cm}/flagged-not-rewritten"
         v.append(Violation("C18", key, f"{cm}: {f1[name]} location(s) reported by the codemod's own rule in {name} but the file was neither rewritten nor listed as failed", {"codemod": job["cid"], "labels": lab, "src": src, "file": name}))
     if r2["rc"] == 0 and not r2["exc"]:
@@ -137,7 +146,8 @@ def judge(job, res):
             orig = unb(job["files"][name]).decode("utf-8-sig", "replace")
             d = declined(cm, orig)
             if d: st["declined2:" + d] += 1; continue
-            v.append(Violation("C18", f"{cm}/reflagged-after-fix", f"{cm}: the detector still reports {hits[:3]} inside statement(s) {stmts[:3]} that the run rewrote in {name}", {"codemod": job["cid"], "before": before, "after": after, "locations": hits, "rewritten_statements": stmts}))
+            lab = tuple(job["labels"].get(name, ()))
+            v.append(Violation("C18", f"{cm}/reflagged-after-fix/" + (lab[1] if lab[:1] == ("family",) else (str(lab[-1]).split(":")[-1] if len(lab) > 3 else "layout-" + str(lab[2] if len(lab) > 2 else "?"))), f"{cm}: the detector still reports {hits[:3]} inside statement(s) {stmts[:3]} that the run rewrote in {name}", {"codemod": job["cid"], "before": before, "after": after, "locations": hits, "rewritten_statements": stmts}))
     return v, st, nt
 
 def main():
